@@ -279,13 +279,15 @@ Proof.
   intros [tys [sigs cas]] W. cbn [wwf wenc wdec w_certreq] in *. unfold cr_wf in W. split_andb.
   repeat match goal with Hx : (_ <=? _) = true |- _ => apply N.leb_le in Hx end.
   repeat match goal with Hx : (_ <? _) = true |- _ => apply N.ltb_lt in Hx end.
-  unfold cr_enc. destruct (N.ltb_spec 255 (N.of_nat (length tys))) as [|_]; [lia|].
+  unfold cr_enc, cr_enc_gen. destruct (N.ltb_spec 255 (N.of_nat (length tys))) as [|_]; [lia|].
+  destruct (N.ltb_spec 65535 (N.of_nat (length sigs) * 2)) as [|_]; [lia|].
+  destruct (N.ltb_spec 65535 (cas_len cas)) as [|_]; [lia|]. cbn [negb andb orb].
   eexists. split; [reflexivity|].
   set (es := flat_map (fun a => be_enc 2 (sig_scheme_of a)) sigs).
   set (ec := flat_map (fun ca => be_enc 2 (len ca) ++ ca) cas).
   destruct (chunk2_sigs sigs ltac:(assumption) ltac:(assumption)) as [Hsig Hsl]. fold es in Hsig, Hsl.
   destruct (cas_enc_len cas ltac:(assumption) ltac:(assumption)) as [Hce [Hcl Hcw]]. fold ec in Hce, Hcl.
-  unfold cr_dec.
+  unfold cr_dec, cr_dec_gen.
   pose proof (cr_types_enc tys ltac:(lia) ltac:(assumption)) as Ety.
   assert (Wty : wf c_cr_types tys = true) by (apply cr_types_wf; try lia; assumption).
   set (rest := be_enc 2 (N.of_nat (length sigs) * 2) ++ es ++ be_enc 2 (cas_len cas) ++ ec).
@@ -303,8 +305,9 @@ Proof.
   subst e2. unfold rest. rewrite D2.
   rewrite len_app, Hsl.
   destruct (N.ltb_spec (N.of_nat (length sigs) * 2 + len (be_enc 2 (cas_len cas) ++ ec)) (N.of_nat (length sigs) * 2)) as [|_]; [lia|].
-  unfold cr_sigs_dec.
+  unfold cr_sigs_dec_gen.
   replace ((N.of_nat (length sigs) * 2) mod 2) with 0 by (rewrite N.mod_mul; lia). rewrite N.add_0_r.
+  cbn [negb N.eqb andb].
   rewrite len_app, Hsl.
   destruct (N.ltb_spec (N.of_nat (length sigs) * 2 + len (be_enc 2 (cas_len cas) ++ ec)) (N.of_nat (length sigs) * 2)) as [|_]; [lia|].
   rewrite <- Hsl. rewrite take_app_exact, drop_app_exact, Hsig.
@@ -320,16 +323,77 @@ Proof.
   rewrite <- Heca. rewrite app_nil_r in Dca. rewrite Dca. reflexivity.
 Qed.
 
-(* REFUTED: "bytes beyond a declared length are never consumed" - an odd signature-algorithm
-   vector length makes the decoder read one byte of the following field *)
-Theorem certreq_declared_length_refuted :
-  exists b x, bytes_ok b = true /\ cr_dec b = Some x /\
+(* "bytes beyond a declared length are never consumed": an odd declared length of
+   supported_signature_algorithms is refused (6845684), whatever follows *)
+Theorem certreq_odd_sigalgs_rejected b tys r1 sl r2 :
+  dec c_cr_types b = Some (tys, r1) -> dec (c_u 2) r1 = Some (sl, r2) -> sl mod 2 = 1 -> cr_dec b = None.
+Proof.
+  intros D1 D2 Hodd. unfold cr_dec, cr_dec_gen. destruct (len b <? 5); [reflexivity|].
+  rewrite D1, D2. destruct (len r2 <? sl); [reflexivity|].
+  unfold cr_sigs_dec_gen. rewrite Hodd. reflexivity.
+Qed.
+
+(* ... and every scheme of an accepted message lies inside the declared vector: the decoder reads
+   exactly [take sl] of what follows the length *)
+Theorem certreq_sigalgs_within_vector b tys sigs cas :
+  cr_dec b = Some (tys, (sigs, cas)) ->
+  exists r1 sl r2, dec c_cr_types b = Some (tys, r1) /\ dec (c_u 2) r1 = Some (sl, r2) /\ sl <= len r2 /\
+                   sigs = filter_map sig_lookup (chunk2 (take sl r2)).
+Proof.
+  unfold cr_dec, cr_dec_gen. destruct (len b <? 5); [discriminate|].
+  destruct (dec c_cr_types b) as [[tys' r1]|] eqn:D1; [|discriminate].
+  destruct (dec (c_u 2) r1) as [[sl r2]|] eqn:D2; [|discriminate].
+  destruct (N.ltb_spec (len r2) sl) as [|Hle]; [discriminate|].
+  unfold cr_sigs_dec_gen. cbn [negb andb].
+  destruct (N.eqb_spec (sl mod 2) 1) as [|Hev]; [discriminate|].
+  assert (H0 : sl mod 2 = 0) by (pose proof (N.mod_upper_bound sl 2); lia). rewrite H0, N.add_0_r.
+  destruct (len r2 <? sl); [discriminate|].
+  destruct (dec c_cr_cas (drop sl r2)) as [[cas' rest]|]; [|discriminate].
+  intro E. inversion E; subst. exists r1, sl, r2. split; [reflexivity|]. split; [exact D2|]. split; [exact Hle|reflexivity].
+Qed.
+
+(* REFUTED for the decoder as coded before 6845684 (F75): an odd signature-algorithm vector length
+   made the decoder read one byte of the following field *)
+Theorem certreq_declared_length_as_coded_refuted :
+  exists b x, bytes_ok b = true /\ cr_dec_gen true b = Some x /\
     (* declared: ONE byte of algorithms (04); decoded: scheme 0x0400 = that byte plus the first
        byte of the following certificate_authorities length field *)
-    b = [0; 0; 1; 4; 0; 0] /\ fst (snd x) = [(4, 0)].
+    b = [0; 0; 1; 4; 0; 0] /\ fst (snd x) = [(4, 0)] /\ cr_dec b = None.
 Proof.
   exists [0; 0; 1; 4; 0; 0]. eexists. split; [reflexivity|].
-  split; [vm_compute; reflexivity|]. split; reflexivity.
+  split; [vm_compute; reflexivity|]. split; [reflexivity|]. split; [reflexivity|]. vm_compute. reflexivity.
+Qed.
+
+(* the encoder refuses what its two 16-bit length fields cannot say (1dbb75b) ... *)
+Theorem certreq_enc_refuses_oversize tys sigs cas :
+  65535 < N.of_nat (length sigs) * 2 \/ 65535 < cas_len cas -> cr_enc (tys, (sigs, cas)) = None.
+Proof.
+  intro H. unfold cr_enc, cr_enc_gen. destruct (255 <? N.of_nat (length tys)); [reflexivity|].
+  cbn [negb andb].
+  destruct (N.ltb_spec 65535 (N.of_nat (length sigs) * 2)); [reflexivity|].
+  destruct (N.ltb_spec 65535 (cas_len cas)); [reflexivity|]. lia.
+Qed.
+
+(* ... so that whatever it emits carries the true lengths of both vectors *)
+Theorem certreq_enc_lengths tys sigs cas e :
+  cr_enc (tys, (sigs, cas)) = Some e ->
+  N.of_nat (length tys) <= 255 /\ N.of_nat (length sigs) * 2 < 65536 /\ cas_len cas < 65536.
+Proof.
+  unfold cr_enc, cr_enc_gen. destruct (N.ltb_spec 255 (N.of_nat (length tys))); [discriminate|].
+  cbn [negb andb].
+  destruct (N.ltb_spec 65535 (N.of_nat (length sigs) * 2)); [discriminate|].
+  destruct (N.ltb_spec 65535 (cas_len cas)); [discriminate|]. intros _. lia.
+Qed.
+
+(* REFUTED for the encoder as coded before 1dbb75b (F76): one authority of 65534 bytes makes the
+   vector 65536 bytes long; its length was written as 0 and the decoder read back NO authority *)
+Theorem certreq_enc_wrap_as_coded_refuted :
+  exists x e, cr_wf (fst x, (fst (snd x), [])) = true /\ cr_enc_gen true x = Some e /\
+              cr_dec e = Some (fst x, (fst (snd x), [])) /\ snd (snd x) <> [] /\ cr_enc x = None.
+Proof.
+  exists ([64], ([(4, 3)], [repeat 170 65534])). eexists.
+  split; [vm_compute; reflexivity|]. split; [reflexivity|].
+  split; [vm_compute; reflexivity|]. split; [discriminate|]. vm_compute. reflexivity.
 Qed.
 
 (* lossy by design: unknown certificate types and signature schemes are dropped *)
